@@ -45,6 +45,10 @@ def groups(n, seed):
             # all variables bounded, start at a vertex of the box (every variable on a bound)
             krng = np.random.default_rng(s + 1)
             kw["var_kinds"] = [["lower", "boxed", "upper"][int(krng.integers(0, 3))] for _ in range(nn)]
+        if i % 5 == 2 and nn >= 4:
+            # several equality rows, with and without right-hand side, in both orders, mixed with one-sided rows
+            kw["row_kinds"] = [["eq", "eq0"], ["eq0", "eq"], ["eq", "lower", "eq0"], ["upper", "eq", "eq0"], ["eq", "eq", "eq0"]][(i // 5) % 5]
+            mm = len(kw["row_kinds"])
         if not wellposed(s, nn, mm, {k: v for k, v in kw.items() if k != "quad_rows"}):
             rejected += 1
             continue
